@@ -26,12 +26,15 @@ import (
 	"google.golang.org/protobuf/types/known/structpb"
 
 	pb "istio.io/api/security/v1alpha1"
+	"istio.io/istio/security/pkg/pki/util"
 	"istio.io/istio/zz_verif/engine"
 )
 
-// backdating of NotBefore tolerated as clock-skew allowance (the property bounds the lifetime the caller
-// gets from the moment of issuance; it does not forbid a small backdated NotBefore)
-const skewAllowance = 5 * time.Minute
+// Backdating of NotBefore: istio documents (exported constant util.ClockSkewGracePeriod, "the period of
+// time a certificate will be valid before its creation") that certificates are valid from a little before
+// their creation. The property bounds the lifetime counted from issuance, so the documented backdating is
+// not counted; nothing else is tolerated.
+const skewAllowance = util.ClockSkewGracePeriod
 
 type replayCase struct {
 	CA   string `json:"ca"`
@@ -139,6 +142,66 @@ func leafSANs(der []byte) ([]sanEntry, int, error) {
 		}
 	}
 	return out, n, nil
+}
+
+// leafView: the fields of the leaf the property speaks about.
+type leafView struct {
+	IsCA, CertSign      bool
+	CN                  string
+	SPKI                []byte
+	NotBefore, NotAfter time.Time
+}
+
+func viewX509(der []byte) (leafView, error) {
+	leaf, err := x509.ParseCertificate(der)
+	if err != nil {
+		return leafView{}, err
+	}
+	return leafView{
+		IsCA: leaf.IsCA, CertSign: leaf.KeyUsage&(x509.KeyUsageCertSign|x509.KeyUsageCRLSign) != 0, CN: leaf.Subject.CommonName,
+		SPKI: leaf.RawSubjectPublicKeyInfo, NotBefore: leaf.NotBefore, NotAfter: leaf.NotAfter,
+	}, nil
+}
+
+// viewLite reads the same fields with encoding/asn1 only.
+func viewLite(der []byte) (leafView, error) {
+	var c certLite
+	if rest, err := asn1.Unmarshal(der, &c); err != nil || len(rest) != 0 {
+		return leafView{}, fmt.Errorf("not a DER certificate: %v", err)
+	}
+	v := leafView{SPKI: c.TBS.PublicKey.FullBytes}
+	var val struct{ NotBefore, NotAfter time.Time }
+	if _, err := asn1.Unmarshal(c.TBS.Validity.FullBytes, &val); err != nil {
+		return v, fmt.Errorf("validity: %v", err)
+	}
+	v.NotBefore, v.NotAfter = val.NotBefore, val.NotAfter
+	var rdn pkix.RDNSequence
+	if _, err := asn1.Unmarshal(c.TBS.Subject.FullBytes, &rdn); err != nil {
+		return v, fmt.Errorf("subject: %v", err)
+	}
+	var name pkix.Name
+	name.FillFromRDNSequence(&rdn)
+	v.CN = name.CommonName
+	for _, e := range c.TBS.Extensions {
+		switch {
+		case e.Id.Equal(asn1.ObjectIdentifier{2, 5, 29, 19}):
+			var bc struct {
+				IsCA       bool `asn1:"optional"`
+				MaxPathLen int  `asn1:"optional,default:-1"`
+			}
+			if _, err := asn1.Unmarshal(e.Value, &bc); err != nil {
+				return v, fmt.Errorf("basicConstraints: %v", err)
+			}
+			v.IsCA = v.IsCA || bc.IsCA
+		case e.Id.Equal(asn1.ObjectIdentifier{2, 5, 29, 15}):
+			var ku asn1.BitString
+			if _, err := asn1.Unmarshal(e.Value, &ku); err != nil {
+				return v, fmt.Errorf("keyUsage: %v", err)
+			}
+			v.CertSign = v.CertSign || ku.At(5) != 0 || ku.At(6) != 0
+		}
+	}
+	return v, nil
 }
 
 func sanKey(s []sanEntry) string {
@@ -256,66 +319,89 @@ func judge(c *caCfg, a *authElem, m *metaElem, csr *csrElem, o observation) (str
 		label = "issued:wrong-identity"
 	}
 
-	// -- everything else needs crypto/x509's reading
-	leaf, err := x509.ParseCertificate(blk.Bytes)
+	// -- everything else: crypto/x509's reading; when crypto/x509 refuses the certificate (for instance a
+	// control character inside a URI SAN) the same fields are taken from the encoding/asn1 walk, so that
+	// syntax strictness of the parser is not mistaken for a property violation
+	v, err := viewX509(blk.Bytes)
 	if err != nil {
-		bad("malformed-leaf", "issued certificate (SANs %s) is rejected by crypto/x509: %v", sanKey(sans), err)
-		return label, f
+		label += "(x509-rejects)"
+		if v, err = viewLite(blk.Bytes); err != nil {
+			bad("malformed-leaf", "issued certificate (SANs %s) cannot be read: %v", sanKey(sans), err)
+			return label, f
+		}
 	}
-	if leaf.IsCA || leaf.KeyUsage&x509.KeyUsageCertSign != 0 || leaf.KeyUsage&x509.KeyUsageCRLSign != 0 {
-		bad("ca-certificate", "issued certificate is a CA certificate (IsCA=%v keyUsage=%b)", leaf.IsCA, leaf.KeyUsage)
+	if v.IsCA || v.CertSign {
+		bad("ca-certificate", "issued certificate is a CA certificate (IsCA=%v keyCertSign/cRLSign=%v)", v.IsCA, v.CertSign)
 	}
-	if cn := leaf.Subject.CommonName; cn != "" {
+	if v.CN != "" {
 		fromIdentity := false
 		for _, e := range sans {
-			fromIdentity = fromIdentity || e.Val == cn
+			fromIdentity = fromIdentity || e.Val == v.CN
 		}
 		if !fromIdentity {
-			bad("identity", "subject CN %q of the issued certificate is none of its identities %s (CSR asked for CN %q)", cn, sanKey(sans), csr.CN)
+			bad("identity", "subject CN %q of the issued certificate is none of its identities %s (CSR asked for CN %q)", v.CN, sanKey(sans), csr.CN)
 		}
 	}
-	if len(leaf.Subject.Organization) > 0 || len(leaf.Subject.OrganizationalUnit) > 0 {
-		// informational only: the property speaks about identities, not about O/OU
-		_ = leaf
-	}
 	if len(csr.Keys) > 0 {
-		got, _ := x509.MarshalPKIXPublicKey(leaf.PublicKey)
 		match := false
 		for _, k := range csr.Keys {
 			want, _ := x509.MarshalPKIXPublicKey(k)
-			match = match || (got != nil && bytes.Equal(got, want))
+			match = match || bytes.Equal(v.SPKI, want)
 		}
 		if !match {
 			bad("public-key", "issued certificate does not bind the CSR's public key")
 		}
 	}
-	if leaf.NotAfter.After(c.Signer.NotAfter) {
-		bad("validity", "NotAfter %s is beyond the signing certificate's NotAfter %s", leaf.NotAfter.UTC().Format(time.RFC3339), c.Signer.NotAfter.UTC().Format(time.RFC3339))
+	if v.NotAfter.After(c.Signer.NotAfter) {
+		bad("validity", "NotAfter %s is beyond the signing certificate's NotAfter %s", v.NotAfter.UTC().Format(time.RFC3339), c.Signer.NotAfter.UTC().Format(time.RFC3339))
 	}
-	if leaf.NotAfter.After(o.After.Add(c.MaxTTL)) {
-		bad("validity", "NotAfter is %s after issuance, configured maximum is %s", leaf.NotAfter.Sub(o.After).Round(time.Second), c.MaxTTL)
+	if v.NotAfter.After(o.After.Add(c.MaxTTL)) {
+		bad("validity", "NotAfter is %s after issuance, configured maximum is %s", v.NotAfter.Sub(o.After).Round(time.Second), c.MaxTTL)
 	}
-	if leaf.NotAfter.Sub(leaf.NotBefore) > c.MaxTTL+skewAllowance {
-		bad("validity", "NotAfter-NotBefore = %s, configured maximum is %s", leaf.NotAfter.Sub(leaf.NotBefore), c.MaxTTL)
+	// certificate fields only (no clock involved): exact to the second
+	if v.NotAfter.Sub(v.NotBefore) > c.MaxTTL+skewAllowance {
+		bad("validity", "NotAfter-NotBefore = %s, configured maximum is %s (+%s documented backdating)", v.NotAfter.Sub(v.NotBefore), c.MaxTTL, skewAllowance)
 	}
-	if leaf.NotBefore.After(o.After) {
+	if v.NotBefore.After(o.After) {
 		bad("validity", "NotBefore lies in the future")
 	}
 	return label, f
 }
 
-// violationKey groups by the shape that fails: the dimensions a kind of violation depends on.
-func violationKey(kind string, rc replayCase, m *metaElem) string {
+// kinds: the set of violation kinds of a case (what has to be reproducible).
+func kinds(fs []finding) string {
+	set := map[string]bool{}
+	for _, f := range fs {
+		set[f.kind] = true
+	}
+	var k []string
+	for x := range set {
+		k = append(k, x)
+	}
+	sort.Strings(k)
+	return "{" + strings.Join(k, ",") + "}"
+}
+
+// violationKey groups by the shape that fails: the dimensions a kind of violation depends on, each named
+// by the element's group.
+func violationKey(kind string, rc replayCase, a *authElem, m *metaElem) string {
+	an, mn := a.Name, m.Name
+	if a.Group != "" {
+		an = a.Group
+	}
+	if m.Group != "" {
+		mn = m.Group
+	}
 	switch kind {
 	case "panic":
-		return "panic|auth=" + rc.Auth
+		return "panic|auth=" + an
 	case "unauthenticated-issued":
-		return kind + "|auth=" + rc.Auth
+		return kind + "|auth=" + an
 	case "identity", "malformed-leaf":
 		if m.Imp != nil {
-			return kind + "|auth=" + rc.Auth + "|meta=" + rc.Meta
+			return kind + "|auth=" + an + "|meta=" + mn
 		}
-		return kind + "|auth=" + rc.Auth
+		return kind + "|auth=" + an
 	case "ca-certificate", "public-key", "malformed-csr-issued":
 		return kind + "|csr=" + rc.CSR
 	case "validity":
@@ -372,12 +458,12 @@ func TestC09(t *testing.T) {
 			// determinism: the same case must give the same verdict again
 			o2 := call(c, a, m, s, tt.Secs(c))
 			label2, fs2 := judge(c, a, m, s, o2)
-			if label2 != label || len(fs2) != len(fs) {
-				res.Infra = fmt.Sprintf("case %s is not deterministic: %s/%d findings, then %s/%d", rc, label, len(fs), label2, len(fs2))
+			if label2 != label || kinds(fs2) != kinds(fs) {
+				res.Infra = fmt.Sprintf("case %s is not deterministic: %s %s, then %s %s", rc, label, kinds(fs), label2, kinds(fs2))
 			}
 		}
 		for _, f := range fs {
-			res.Violate(violationKey(f.kind, rc, m), rc.String()+": "+f.desc, rc)
+			res.Violate(violationKey(f.kind, rc, a, m), rc.String()+": "+f.desc, rc)
 		}
 	}
 
@@ -415,6 +501,15 @@ func TestC09(t *testing.T) {
 			o := call(cas[ci], &auths[ai], &ms[0], &csrs[0], ts[3].Secs(cas[ci]))
 			if o.Resp == nil {
 				res.Infra = fmt.Sprintf("calibration: %s/%s/plain request was not served (code %s panic %q)", cas[ci].Name, auths[ai].Name, o.Code, o.Panic)
+				return
+			}
+			// the two readers of the leaf must agree wherever both work
+			blk, _ := pem.Decode([]byte(o.Resp.CertChain[0]))
+			vx, err1 := viewX509(blk.Bytes)
+			vl, err2 := viewLite(blk.Bytes)
+			if err1 != nil || err2 != nil || vx.IsCA != vl.IsCA || vx.CertSign != vl.CertSign || vx.CN != vl.CN || !bytes.Equal(vx.SPKI, vl.SPKI) ||
+				!vx.NotAfter.Equal(vl.NotAfter) || !vx.NotBefore.Equal(vl.NotBefore) {
+				res.Infra = fmt.Sprintf("calibration: the two leaf readers disagree: %+v (%v) vs %+v (%v)", vx, err1, vl, err2)
 				return
 			}
 		}
